@@ -13,7 +13,7 @@ def S(name, quick, thorough):
 
 PROPS = {
     "C04": {"errkinds": False, 
-        "streams": [S("int", 3000, 20000), S("ident", 100, 800), S("parse", 600, 4000), S("table", 200, 1500)], "also_tags": ["C02", "C09"],
+        "streams": [S("int", 3000, 20000), S("ident", 100, 800), S("parse", 600, 4000), S("table", 200, 1500)],
         "projection": "full",
         "rule": "int reads: every type at every offset 0..len+9 and usize::MAX-8..usize::MAX of buffers 0..24 bytes, "
                 "boundary and random contents, both orders; thorough adds the exhaustive u8/u16 sweeps. distinct = distinct "
